@@ -7,6 +7,7 @@ import Mathlib.Algebra.BigOperators.Group.List.Basic
 import Mathlib.Algebra.Order.Field.Rat
 import Mathlib.Data.List.Perm.Basic
 import Mathlib.Tactic.Ring
+import Mathlib.Tactic.Linarith
 namespace PgmVerif
 
 theorem sum_map_zero' {α : Type} (l : List α) : (l.map (fun _ => (0 : Rat))).sum = 0 := by
@@ -186,6 +187,58 @@ theorem C19_zero_on_independent (cell : Rat → Rat → Rat) (hcell : ∀ e, cel
       simp [hcell]
     simp only [hz, sum_map_zero']
   rw [this, sum_map_zero']
+
+/-! ### sign of the Pearson statistic -/
+
+theorem list_sum_nonneg' : ∀ (l : List Rat), (∀ x ∈ l, 0 ≤ x) → 0 ≤ l.sum
+  | [], _ => by simp
+  | x :: xs, h => by
+    rw [List.sum_cons]
+    exact add_nonneg (h x List.mem_cons_self) (list_sum_nonneg' xs (fun y hy => h y (List.mem_cons_of_mem _ hy)))
+
+theorem expectedAt_nonneg (rows : List CIRow) (i j : Nat) : 0 ≤ expectedAt rows i j := by
+  unfold expectedAt
+  apply div_nonneg
+  · apply mul_nonneg <;> exact_mod_cast Nat.zero_le _
+  · exact_mod_cast Nat.zero_le _
+
+/-- one Pearson cell: (O − E)² / E is non-negative for a non-negative expected count, and vanishes for E > 0 exactly when O = E -/
+theorem C19_pearson_cell (o e : Rat) (he : 0 ≤ e) :
+    0 ≤ cellPearson o e ∧ (0 < e → (cellPearson o e = 0 ↔ o = e)) := by
+  unfold cellPearson
+  refine ⟨div_nonneg (mul_self_nonneg _) he, fun hpos => ?_⟩
+  constructor
+  · intro h
+    have hne : e ≠ 0 := ne_of_gt hpos
+    have : (o - e) * (o - e) = 0 := by
+      rcases div_eq_zero_iff.mp h with h' | h'
+      · exact h'
+      · exact absurd h' hne
+    have : o - e = 0 := by
+      rcases mul_eq_zero.mp this with h' | h' <;> exact h'
+    linarith
+  · intro h
+    rw [h]
+    simp
+
+/-- **the Pearson chi-square statistic is never negative**: for every data set, every number of strata and with or without Yates'
+    correction (the correction only changes the observed value that enters the cell) -/
+theorem C19_pearson_stat_nonneg (kx ky ks : Nat) (rows : List CIRow) :
+    0 ≤ (stratified cellPearson kx ky ks rows).1 := by
+  unfold stratified
+  simp only
+  apply list_sum_nonneg'
+  intro x hx
+  obtain ⟨s, _, rfl⟩ := List.mem_map.mp hx
+  unfold tableStat
+  simp only
+  apply list_sum_nonneg'
+  intro y hy
+  obtain ⟨i, _, rfl⟩ := List.mem_map.mp hy
+  apply list_sum_nonneg'
+  intro z hz
+  obtain ⟨j, _, rfl⟩ := List.mem_map.mp hz
+  exact (C19_pearson_cell _ _ (expectedAt_nonneg s i j)).1
 
 /-- extraction tie: the named wrappers hand the documented λ to the power-divergence test -/
 theorem C19_lambda_tie : Generated.ciLambdaTable =
